@@ -27,7 +27,7 @@ ELEMENTARY_FAMILIES = {
     'p': ['general', 'axis+', 'axis-', '3pt-Dpos', '3pt-Dneg', '3pt-D0-C',
           '3pt-D0-B', '3pt-D0-A', '3pt-generic', '3pt-axis-neg',
           '3pt-axis-pos', '3pt-close', '3pt-D0-large', '3pt-thin',
-          '3pt-D0-flat'],
+          '3pt-D0-flat', '3pt-far-small-D'],
     'px': ['any'], 'py': ['any'], 'pz': ['any'],
     'so': ['any'], 's': ['any'], 'sx': ['any'], 'sy': ['any'], 'sz': ['any'],
     'c/x': ['any'], 'c/y': ['any'], 'c/z': ['any'],
@@ -194,6 +194,24 @@ def elementary(rng, kind, family):
                 k = rng.randrange(3)
                 out[3 * k:3 * k + 3] = [0.0, 0.0, 0.0]
             return out
+        if family == '3pt-far-small-D':
+            # a plane that misses the origin by a tenth of a millimetre to a
+            # millimetre, given by a small triangle hundreds of metres away
+            # (all entries exact): D is small, but it is not zero
+            ax = rng.randrange(3)
+            oth = [i for i in range(3) if i != ax]
+            dval = rng.choice([1e-4, -1e-4, 1e-3, -1e-3, -0.01, 0.01])
+            far = rng.choice([1e4, 1e5, 1e5, 3e5 if abs(dval) >= 1e-3 else 1e5])
+            a, b = far * rng.choice([1, -1]), far * rng.choice([1, -1, 0.5])
+            pts = []
+            for da, db in ((0.0, 0.0), (1.0, 0.0), (0.0, 1.0)):
+                pnt = [0.0, 0.0, 0.0]
+                pnt[ax] = dval
+                pnt[oth[0]] = a + da
+                pnt[oth[1]] = b + db
+                pts.append(pnt)
+            rng.shuffle(pts)
+            return [v for pnt in pts for v in pnt]
         if family == '3pt-D0-flat':
             # a plane through the origin and parallel to one coordinate axis
             # (D = 0 and C = 0, or B = 0, exactly in decimal arithmetic),
